@@ -15,7 +15,7 @@ func init() {
 		id: "C09",
 		li: levelInfo{
 			Level:       "other",
-			Explanation: "Static lifecycle rules. R1: for every component whose Stop/Close blocks on a done latch, the function that closes the latch closes it on every return path. R2: inside the goroutines of listener, session, backend connection, upstream and the two procs every blocking channel operation is guarded (select with a quit latch), a join on a lifecycle latch, or bounded by a timer. R3 (lockset analysis): listener.conns and listener.ln are accessed only under listener.mu, or before the object is shared, or (ln, written once) in code that runs only after the write; the assignment of ln is followed by a re-test of quit/drain that closes the socket. R4: nothing reachable from Drain touches the registry or the quit latch. R5: limit test and insertion are in one critical section and the admission predicate is right over the orderings of len vs limit. R6: Stop closes the listener and every connection of the snapshot taken under the lock, marks the registry stopped in the same critical section, then joins. R7: no lock -> latch wait-for cycle: a goroutine that must finish before a latch closes never acquires, unguarded by a quit test, a lock that is held while waiting for that latch. Wall-clock bounds and goroutine counts are not decided.",
+			Explanation: "Static lifecycle rules. R1: for every component whose Stop/Close blocks on a done latch, the function that closes the latch closes it on every return path. R2: inside the goroutines of listener, session, backend connection, upstream and the two procs every blocking channel operation is guarded (select with a quit latch), a join on a lifecycle latch, or bounded by a timer. R3 (lockset analysis): listener.conns and listener.ln are accessed only under listener.mu, or before the object is shared, or (ln, written once) in code that runs only after the write; the assignment of ln is followed by a re-test of quit/drain that closes the socket. R4: nothing reachable from Drain touches the registry or the quit latch. R5: limit test and insertion are in one critical section and the admission predicate is right over the orderings of len vs limit. R6: Stop closes the listener and every connection of the snapshot taken under the lock, marks the registry stopped in the same critical section, then joins. R7: no lock -> latch wait-for cycle: at every call that joins a lifecycle latch, no lock of the must-hold lockset is acquired anywhere in the code the joined goroutines run before the latch closes (a quit test in front of such an acquisition is not accepted: test-then-lock is not atomic). R4 also requires that Drain closes the drain latch whether or not the port is bound (shared with C17.R6). Wall-clock bounds and goroutine counts are not decided.",
 			TrustedBase: []string{"go/ssa", "VTA call graph", "samlint elock.go, echan.go, zone.go"},
 		},
 		run: checkC09,
@@ -666,15 +666,12 @@ func checkLimitPredicate(c *Ctx, lim *ssa.Function, conns *types.Var) {
 func checkWaitForCycles(c *Ctx) {
 	p := c.P
 	le := newLockEngine(p, "proc", "proc/redis", "proc/tcp")
-	ce := newChanEngine(p)
+	_ = newChanEngine
 	doneFields := latchFields(p, "done")
 	n := 0
+	seenSite := map[string]int{}
 	for _, fn := range le.fns {
 		eachInstr(fn, func(_ *ssa.BasicBlock, _ int, in ssa.Instruction) {
-			held := le.heldAt(in)
-			if len(held) == 0 {
-				return
-			}
 			cc := callOf(in)
 			if cc == nil {
 				return
@@ -686,12 +683,25 @@ func checkWaitForCycles(c *Ctx) {
 			if g == nil || !isModFn(g) {
 				return
 			}
+			held := le.heldAt(in)
 			for _, d := range doneFields {
 				o := ownerOf(p, d)
 				if strings.HasSuffix(o, "Request") {
 					continue
 				}
 				if p.waitsOn(g, d, 3, map[*ssa.Function]bool{}) == nil {
+					continue
+				}
+				n++
+				site := fmt.Sprintf("%s joins %s.done via %s", fnKey(fn), o, g.Name())
+				if _, dup := seenSite[site]; dup {
+					seenSite[site]++
+					site = fmt.Sprintf("%s #%d", site, seenSite[site])
+				} else {
+					seenSite[site] = 1
+				}
+				if len(held) == 0 {
+					c.OK("R7", site, in.Pos(), "no lock held at the join")
 					continue
 				}
 				// closers of d and everything they run before closing
@@ -701,20 +711,12 @@ func checkWaitForCycles(c *Ctx) {
 						roots = append(roots, topFn(op.Fn))
 					}
 				}
-				reach := p.reachable(roots, nil)
+				bad := ""
+				var names []string
 				for L := range held {
-					n++
-					site := fmt.Sprintf("%s holds %s while joining %s.done via %s", fnKey(fn), L.Name(), o, g.Name())
-					unguarded := unguardedAcquirers(p, ce, L)
-					bad := ""
-					for f := range reach {
-						if unguarded[f] {
-							// f must be reachable from a root through unguarded sites only: recheck along the graph
-							bad = fnKey(f)
-						}
-					}
-					bad = ""
-					// precise: walk from roots following only call sites that are not quit-guarded
+					names = append(names, L.Name())
+					// walk everything the goroutines that must finish first can run. A quit test in front of the
+					// acquisition is NOT accepted: test-then-lock is not atomic, the joiner can take the lock in between.
 					seen := map[*ssa.Function]bool{}
 					var walk func(f *ssa.Function) string
 					walk = func(f *ssa.Function) string {
@@ -725,9 +727,6 @@ func checkWaitForCycles(c *Ctx) {
 						hit := ""
 						eachInstr(f, func(b *ssa.BasicBlock, _ int, x ssa.Instruction) {
 							if hit != "" {
-								return
-							}
-							if quitGuarded(ce, b) {
 								return
 							}
 							if fld, op := mutexOp(x); (op == "Lock" || op == "RLock") && fld == L {
@@ -752,21 +751,22 @@ func checkWaitForCycles(c *Ctx) {
 					}
 					for _, r := range roots {
 						if bad == "" {
-							bad = walk(r)
+							if w := walk(r); w != "" {
+								bad = w + " which acquires " + L.Name()
+							}
 						}
 					}
-					if bad != "" {
-						c.Fail("R7", site, in.Pos(), "wait-for cycle: the latch closes only after "+bad+" which acquires "+L.Name()+" without first testing a quit latch; with the lock held here both sides wait for ever")
-					} else {
-						c.OK("R7", site, in.Pos(), "no goroutine that must finish first can acquire "+L.Name()+" except behind a quit test")
-					}
+				}
+				sort.Strings(names)
+				if bad != "" {
+					c.Fail("R7", site, in.Pos(), "wait-for cycle: "+strings.Join(names, ",")+" held at the join, and the latch closes only after "+bad+" (a quit test in front of the acquisition does not help: the joiner can take the lock between the test and the acquisition); both sides then wait for ever")
+				} else {
+					c.OK("R7", site, in.Pos(), "locks held at the join ("+strings.Join(names, ",")+") are never acquired by a goroutine that must finish first")
 				}
 			}
 		})
 	}
-	if n == 0 {
-		c.Note("no lock is held while joining a lifecycle latch")
-	}
+	c.Note("%d join sites of lifecycle latches examined", n)
 }
 
 // quitGuarded: block b is dominated by the default arm of a non-blocking select that watches a quit-like latch.
